@@ -392,7 +392,9 @@ T_Prove1(m) == IF "prove1" \notin Templates \/ 1 \notin Vers THEN {} ELSE
      cid \in {x \in Live1(m) : m.c1[x].ws <= child}}
 \* v2 formation
 C2(r, h, a, ph, eh) == [r |-> r, h |-> h, ra |-> a, ha |-> "B", mh |-> h - (h \div 4), coll |-> h \div 2, ph |-> ph, eh |-> eh,
-                        rn |-> 0, cap |-> 128, size |-> 64, rk |-> "R", hk |-> "H", auth |-> "ok"]
+                        \* (an empty file is a special case of several resolution rules: contracts with an even proof height are
+                        \*  empty in configurations whose size menu contains 0)
+                        rn |-> 0, cap |-> 128, size |-> IF 0 \in Sizes /\ ph % 2 = 0 THEN 0 ELSE 64, rk |-> "R", hk |-> "H", auth |-> "ok"]
 Cost2(rh) == rh[1] + rh[2] + Tax2(rh[1], rh[2])
 Form2Tx(m, id, rh, dp, de) ==
   [EmptyTx(2) EXCEPT !.sci = <<In(id)>>, !.fc = <<C2(rh[1], rh[2], m.sc[id].addr, child + dp, child + dp + de)>>, !.tag = "form2", !.slack = dp,
@@ -408,7 +410,7 @@ T_Rev2(m) == IF "rev2" \notin Templates \/ 2 \notin Vers THEN {} ELSE
 T_Res2(m) == IF "res2" \notin Templates \/ 2 \notin Vers THEN {} ELSE
   {[EmptyTx(2) EXCEPT !.res = <<[cid |-> q[1], kind |-> q[2], pf |-> "ok", ren |-> NoRen]>>, !.tag = q[2],
                        !.slack = IF q[2] = "proof" THEN child - (m.c2[q[1]].ph + 1) ELSE child - (m.c2[q[1]].eh + 1)] :
-     q \in Live2(m) \X {"proof", "expire"}}
+     q \in {y \in Live2(m) \X {"proof", "expire"} : y[2] = "expire" \/ m.c2[y[1]].size > 0}}   \* (nothing to prove for an empty file)
 \* renewal: roll a quarter of each side over, fund the rest of the new contract from one input
 RenewTx(m, cid, id, nr) ==
   LET c == m.c2[cid]  rr == c.r \div 4  hr == c.h \div 4
@@ -450,6 +452,7 @@ Mut(m, t) ==
 \cup (IF "intx" \in Defects /\ t.sfi # <<>> THEN {Tag([t EXCEPT !.sfi = Append(@, @[1]), !.sfo = Append(@, Out(m.sf[t.sfi[1].id].val, "A"))], "intx")} ELSE {})
 \cup (IF "intx" \in Defects /\ t.rev # <<>> THEN {Tag([t EXCEPT !.rev = Append(@, [@[1] EXCEPT !.c.rn = @ + 1])], "intx")} ELSE {})
 \cup (IF "intx" \in Defects /\ t.res # <<>> /\ t.ver = 2 /\ t.res[1].kind # "renew" THEN {Tag([t EXCEPT !.res = Append(@, @[1])], "intx")} ELSE {})
+\cup (IF "intx" \in Defects /\ t.res # <<>> /\ t.ver = 1 THEN {Tag([t EXCEPT !.res = Append(@, @[1])], "intx")} ELSE {})   \* the same storage proof twice
 \cup (IF "revision" \in Defects /\ t.rev # <<>> /\ t.ver = 2 THEN
         {Tag([t EXCEPT !.rev[1].c.h = @ + 1], "sum"), Tag([t EXCEPT !.rev[1].c.rn = m.c2[t.rev[1].cid].rn], "samern"),
          Tag([t EXCEPT !.rev[1].c.mh = m.c2[t.rev[1].cid].mh + 1, !.rev[1].c.h = @ + 0], "missedup"),
@@ -516,6 +519,14 @@ BadCand(m) ==
             own   == {<<m.sc[y].val, m.sc[y].addr>> : y \in {z \in DOMAIN m.sc : z[2] = child \/ z \in m.spends}}
                      \cup {<<sc[y].val, sc[y].addr>> : y \in {z \in DOMAIN sc : z \in m.spends}}
         IN {[EmptyTx(1) EXCEPT !.sci = <<[id |-> q[1], auth |-> "as:" \o q[2][2]]>>, !.sco = <<Out(q[2][1], q[2][2])>>, !.tag = "confuse"] :
+               q \in other \X {w \in own : w[1] > 0 /\ w[2] \in Owners}} ELSE {})
+\* the v2 form: from the ephemeral-output height on a parent created in this block must be stated exactly (id, output,
+\* maturity). Candidates: the id of an in-block siafund output or v2 contract with the contents of an in-block siacoin output.
+\cup (IF "confuse" \in Defects /\ 2 \in Vers /\ child >= EphH THEN
+        LET other == {id \in m.created : id[1] \in {SFO, FC2}}
+            own   == {<<m.sc[y].val, m.sc[y].addr, m.sc[y].mat>> : y \in {z \in DOMAIN m.sc : z \in m.created /\ z \notin m.spends}}
+        IN {[EmptyTx(2) EXCEPT !.sci = <<[id |-> q[1], auth |-> "as:" \o q[2][2] \o ":" \o ToString(q[2][1]) \o ":" \o ToString(q[2][3])]>>,
+                               !.sco = <<Out(q[2][1], q[2][2])>>, !.tag = "confuse"] :
                q \in other \X {w \in own : w[1] > 0 /\ w[2] \in Owners}} ELSE {})
 \cup (IF "early" \in Defects /\ 2 \in Vers THEN
         {[EmptyTx(2) EXCEPT !.res = <<[cid |-> q[1], kind |-> q[2], pf |-> "ok", ren |-> NoRen]>>, !.tag = q[2] \o "!early"] :
